@@ -225,3 +225,51 @@ def blank_set_rule(prog, ctx, rule):
                 ctx.ok(rule, "%s: a blank is what isspace() says" % f.name, top.where, "all six characters of the C locale")
     if n == 0:
         ctx.ok(rule, "a blank is what isspace() says", "lib/", "no classifier of the library's own: <ctype.h> everywhere")
+
+
+def header_and_set_rules(prog, ctx, rule_bracket, rule_set):
+    """(1) Whether a section header lacks its closing bracket (ECONF_MISSING_BRACKET) or has text behind it (ECONF_TEXT_AFTER_SECTION) is
+    decided on the header text itself - the blank-stripped, comment-cut `name` - not on the raw line, whose trailing comment may hold a `]`.
+    (2) A loop that runs over the comment set works with the element of its round: `comment[i]`, not `comment[0]` (with a set like "#;"
+    the second character would never be looked for)."""
+    L = landmarks(prog)
+    f = L.fn
+    ctx.touch(f)
+    raw = set([L.linebuf])
+    for lhs, rhs, st in f.assignments():
+        if rhs is not None and render(rhs.strip()) in ("strdup(%s)" % L.linebuf,):
+            raw.add(lhs["name"] if isinstance(lhs, dict) else render(lhs))
+    n = 0
+    for c in f.calls(("strchr", "strrchr", "memchr")):
+        a = c.call_args()
+        if len(a) >= 2 and a[1].const_value() == ord("]"):
+            n += 1
+            src = render(a[0])
+            if src in raw:
+                ctx.fail(rule_bracket, "the closing bracket is looked for in the header text", c.where,
+                         "`%s` searches the raw line: a `]` in the trailing comment of an unterminated header (`[net   # was [net] before`) counts as its closing "
+                         "bracket and the error reported is ECONF_TEXT_AFTER_SECTION instead of ECONF_MISSING_BRACKET" % render(c)[:60], key="bracket-search-raw")
+            else:
+                ctx.ok(rule_bracket, "the closing bracket is looked for in the header text", c.where, render(c)[:60])
+    if n == 0:
+        ctx.inconclusive(rule_bracket, "the closing bracket is looked for in the header text", f.where, "no search for ']' found")
+    cpar = "comment"
+    m = 0
+    for lp in f.walk():
+        if lp.k != "ForStmt":
+            continue
+        from sa import loops as _loops
+        sh = _loops.index_shape(lp)
+        if not (sh.ok and sh.start == "0" and ("strlen(%s)" % cpar in (sh.bound or "") or "%s[%s]" % (cpar, sh.var) in render(lp.child("cond")))):
+            continue
+        for x in lp.walk():
+            if x.k == "ArraySubscriptExpr" and render(x.children[0]) == cpar and not x.within(lp.child("cond")):
+                m += 1
+                if render(x.children[1]) == sh.var:
+                    ctx.ok(rule_set, "a loop over the comment set uses the character of its round", x.where, render(x))
+                else:
+                    ctx.fail(rule_set, "a loop over the comment set uses the character of its round", x.where,
+                             "`%s` inside the loop over %s: every round works with the same character, the other members of a set like \"#;\" are never looked for - "
+                             "a trailing `; text` on a continuation line stays in the value" % (render(x), sh.describe()), key="comment-set-element")
+    if m == 0:
+        ctx.inconclusive(rule_set, "a loop over the comment set uses the character of its round", f.where, "no loop over the comment set found")
